@@ -1524,3 +1524,331 @@ Proof.
     + rewrite Hs. cbn [fst snd]. auto.
 Qed.
 End RefineDerived.
+
+(* ------------------------------------------------------------------------------------ *)
+(* consequences read off the list-queue machine                                           *)
+(* ------------------------------------------------------------------------------------ *)
+Section QueueFacts.
+Variable A : Type.
+Implicit Types r : ring A.
+Implicit Types s : qs A.
+
+(* elements an operation appends to / removes from the front of the queue, as determined by its
+   arguments and observable result (enqueue_unallocated commits scratch contents; dequeue_allocated
+   and clear discard without returning) *)
+Definition qs_enq s (op : ring_op A) (out : list Z * list A) : list A :=
+  match op with
+  | ROEnqOne w => map (wr w) (snd out)
+  | ROEnqOneWith w acc => if acc then map (wr w) (snd out) else []
+  | ROEnqManyWith w k => firstn (Z.to_nat k) (overlay w (snd out))
+  | ROEnqMany _ w => overlay w (snd out)
+  | ROEnqSlice d => firstn (Z.to_nat (hd 0 (fst out))) d
+  | ROEnqUnalloc n => firstn (Z.to_nat n) (q_fr s)
+  | _ => []
+  end.
+Definition qs_deq s (op : ring_op A) (out : list Z * list A) : list A :=
+  match op with
+  | RODeqOne => snd out
+  | RODeqOneWith acc => if acc then snd out else []
+  | RODeqManyWith k => firstn (Z.to_nat k) (snd out)
+  | RODeqMany _ => snd out
+  | RODeqSlice _ => snd out
+  | RODeqAlloc n => firstn (Z.to_nat n) (q_q s)
+  | ROClear => q_q s
+  | _ => []
+  end.
+
+Lemma app_nil_r' : forall (l : list A), l = l ++ [].
+Proof. intros. rewrite app_nil_r. reflexivity. Qed.
+
+Lemma qs_step_fifo : forall s op s' out, qs_wf s -> ring_op_ok op ->
+  qs_step s op = Ok (s', out) ->
+  q_q s ++ qs_enq s op out = qs_deq s op out ++ q_q s' /\ qs_cap s' = qs_cap s.
+Proof.
+  intros s op s' out Hwf Hok Hst.
+  pose proof (zlen_nonneg (q_q s)). pose proof (zlen_nonneg (q_fr s)).
+  destruct op; cbn [qs_step ring_op_ok qs_enq qs_deq] in *.
+  - (* enqueue_one *)
+    unfold qs_enqueue_one_with in Hst. destruct (q_fr s) as [|old fr'] eqn:Efr; [discriminate|].
+    cbn [obind] in Hst. inversion Hst; subst. cbn [snd map q_q]. split; [reflexivity|].
+    unfold qs_cap. cbn [q_q q_fr]. rewrite Efr, zlen_app, !zlen_cons, zlen_nil. lia.
+  - unfold qs_enqueue_one_with in Hst. destruct (q_fr s) as [|old fr'] eqn:Efr; [discriminate|].
+    cbn [obind] in Hst. inversion Hst; subst. cbn [snd map].
+    unfold qs_cap. destruct acc; cbn [q_q q_fr]; rewrite ?app_nil_r, Efr, ?zlen_app, !zlen_cons, ?zlen_nil;
+      split; auto; lia.
+  - unfold qs_dequeue_one_with in Hst. destruct (q_q s) as [|x q'] eqn:Eq; [discriminate|].
+    cbn [obind] in Hst. inversion Hst; subst. cbn [snd q_q]. rewrite app_nil_r. split; [reflexivity|].
+    unfold qs_cap. cbn [q_q q_fr]. rewrite Eq, zlen_app, !zlen_cons, zlen_nil. lia.
+  - unfold qs_dequeue_one_with in Hst. destruct (q_q s) as [|x q'] eqn:Eq; [discriminate|].
+    cbn [obind] in Hst. inversion Hst; subst. cbn [snd]. rewrite app_nil_r.
+    unfold qs_cap. destruct acc; cbn [q_q q_fr]; rewrite ?Eq, ?zlen_app, ?zlen_cons, ?zlen_nil;
+      split; auto; lia.
+  - (* enqueue_many_with *)
+    unfold qs_enqueue_many_with in Hst. cbn [obind] in Hst.
+    destruct (reset_facts Hwf) as (Hq1 & Hfr1 & Hwf1 & _).
+    set (s1 := qs_reset_if_empty s) in *. pose proof (cw_range Hwf1) as Hm.
+    set (m := qs_contiguous_window s1) in *. unfold qs_window in Hm.
+    destruct (Z.ltb_spec m k); [discriminate|]. inversion Hst; subst. cbn [snd q_q].
+    rewrite Hq1.
+    rewrite (overlay_same (overlay w (firstn (Z.to_nat m) (q_fr s1))) (firstn (Z.to_nat m) (q_fr s1)))
+      by (rewrite overlay_length; reflexivity).
+    split; [reflexivity|]. unfold qs_cap. cbn [q_q q_fr].
+    assert (Hzo : zlen (firstn (Z.to_nat m) (q_fr s1)) = m) by (apply zlen_firstn; lia).
+    rewrite !zlen_app, zlen_firstn, !zlen_skipn by (rewrite ?zlen_overlay; lia).
+    rewrite zlen_overlay, Hzo. lia.
+  - (* enqueue_many *)
+    unfold qs_enqueue_many in Hst. inversion Hst; subst. cbn [snd q_q].
+    destruct (reset_facts Hwf) as (Hq1 & Hfr1 & Hwf1 & _).
+    set (s1 := qs_reset_if_empty s) in *. pose proof (cw_range Hwf1) as Hm. unfold qs_window in Hm.
+    rewrite Hq1. split; [reflexivity|]. unfold qs_cap. cbn [q_q q_fr].
+    rewrite zlen_app, zlen_overlay, zlen_firstn, zlen_skipn by lia. lia.
+  - unfold qs_enqueue_slice in Hst. inversion Hst; subst. cbn [snd fst hd q_q].
+    destruct (reset_facts Hwf) as (Hq1 & Hfr1 & Hwf1 & _).
+    set (s1 := qs_reset_if_empty s) in *. pose proof (zlen_nonneg d). unfold qs_window.
+    rewrite Hq1. split; [reflexivity|]. unfold qs_cap. cbn [q_q q_fr].
+    rewrite zlen_app, zlen_firstn, zlen_skipn by lia. lia.
+  - (* dequeue_many_with *)
+    unfold qs_dequeue_many_with in Hst. cbn [obind] in Hst.
+    set (m := Z.min (qs_len s) (qs_cap s - q_pos s)) in *.
+    assert (Hm : 0 <= m <= zlen (q_q s)) by (unfold m, qs_wf, qs_cap, qs_len in *; lia).
+    destruct (Z.ltb_spec m k); [discriminate|]. inversion Hst; subst. cbn [snd q_q].
+    rewrite app_nil_r, firstn_firstn_z, firstn_skipn by lia. split; [reflexivity|].
+    unfold qs_cap. cbn [q_q q_fr]. rewrite zlen_app, zlen_firstn, zlen_skipn by lia. lia.
+  - unfold qs_dequeue_many, qs_dequeue_n in Hst. inversion Hst; subst. cbn [snd q_q].
+    set (n := Z.min size (Z.min (qs_len s) (qs_cap s - q_pos s))).
+    assert (Hn : 0 <= n <= zlen (q_q s)) by (unfold n, qs_wf, qs_cap, qs_len in *; lia).
+    rewrite app_nil_r, firstn_skipn. split; [reflexivity|].
+    unfold qs_cap. cbn [q_q q_fr]. rewrite zlen_app, zlen_firstn, zlen_skipn by lia. lia.
+  - unfold qs_dequeue_slice, qs_dequeue_n in Hst. inversion Hst; subst. cbn [snd q_q].
+    set (k := Z.min n (qs_len s)).
+    assert (Hk : 0 <= k <= zlen (q_q s)) by (unfold k, qs_len in *; lia).
+    rewrite app_nil_r, firstn_skipn. split; [reflexivity|].
+    unfold qs_cap. cbn [q_q q_fr]. rewrite zlen_app, zlen_firstn, zlen_skipn by lia. lia.
+  - (* get_unallocated *)
+    destruct Hok as (Ho & Hsz). unfold qs_get_unallocated in Hst. inversion Hst; subst. cbn [q_q].
+    rewrite app_nil_r. split; [reflexivity|]. unfold qs_cap. cbn [q_q q_fr]. f_equal.
+    unfold qs_window.
+    change (qs_idx s (qs_len s + off)) with (pidx (qs_cap s) (q_pos s) (qs_len s + off)).
+    destruct (Z.ltb_spec (zlen (q_fr s)) off).
+    + rewrite slice_len0, overlay_nil, put_nil_0. reflexivity.
+    + pose proof (@pidx_range (qs_cap s) (q_pos s) (qs_len s + off) Hwf
+                    ltac:(unfold qs_cap, qs_len; lia)) as Hp.
+      apply zlen_put; [lia|]. rewrite zlen_overlay, zlen_slice; unfold qs_cap in *; lia.
+  - unfold qs_write_unallocated in Hst. inversion Hst; subst. cbn [q_q].
+    rewrite app_nil_r. split; [reflexivity|]. unfold qs_cap. cbn [q_q q_fr]. f_equal.
+    unfold qs_window. pose proof (zlen_nonneg d).
+    destruct (Z.ltb_spec (zlen (q_fr s)) off).
+    + change (Z.to_nat 0) with 0%nat. cbn [firstn]. rewrite put_nil_0. reflexivity.
+    + apply zlen_put; [lia|]. rewrite zlen_firstn; lia.
+  - unfold qs_enqueue_unallocated in Hst. cbn [obind] in Hst. unfold qs_window in Hst.
+    destruct (Z.ltb_spec (zlen (q_fr s)) n); [discriminate|]. inversion Hst; subst. cbn [q_q].
+    split; [reflexivity|]. unfold qs_cap. cbn [q_q q_fr].
+    rewrite zlen_app, zlen_firstn, zlen_skipn by lia. lia.
+  - destruct (qs_get_allocated s off size); inversion Hst; subst. rewrite app_nil_r. auto.
+  - destruct (qs_read_allocated s off n) as [[k d]| |]; inversion Hst; subst. rewrite app_nil_r. auto.
+  - unfold qs_dequeue_allocated, qs_dequeue_n in Hst. unfold qs_len in Hst.
+    destruct (Z.ltb_spec (zlen (q_q s)) n); [discriminate|]. cbn [obind] in Hst.
+    inversion Hst; subst. cbn [q_q]. rewrite app_nil_r, firstn_skipn. split; [reflexivity|].
+    unfold qs_cap. cbn [q_q q_fr]. rewrite zlen_app, zlen_firstn, zlen_skipn by lia. lia.
+  - inversion Hst; subst. unfold qs_clear. cbn [q_q]. rewrite !app_nil_r. split; [reflexivity|].
+    unfold qs_cap. cbn [q_q q_fr]. rewrite zlen_rotl, zlen_app, zlen_nil. lia.
+Qed.
+(* history of a run: everything accepted and everything removed, in order *)
+Fixpoint ring_hist r (ops : list (ring_op A)) : list A * list A :=
+  match ops with
+  | [] => ([], [])
+  | op :: ops' =>
+      match ring_step r op with
+      | Ok (r1, out) =>
+          let '(e, d) := ring_hist r1 ops' in
+          (qs_enq (ring_view r) op out ++ e, qs_deq (ring_view r) op out ++ d)
+      | Err _ => ring_hist r ops'
+      | Panic => ([], [])
+      end
+  end.
+
+Lemma view_cap : forall r, ring_inv r -> qs_cap (ring_view r) = ring_capacity r.
+Proof. intros r Hi. apply (rep_cap (view_rep Hi)). Qed.
+
+Lemma abs_le_cap : forall r, ring_inv r -> zlen (ring_abs r) <= ring_capacity r.
+Proof.
+  intros r Hi. pose proof (rep_cap (view_rep Hi)). unfold ring_abs.
+  pose proof (zlen_nonneg (q_fr (ring_view r))). lia.
+Qed.
+
+Theorem ring_run_fifo : forall ops r, ring_inv r -> Forall (@ring_op_ok A) ops ->
+  ring_abs r ++ fst (ring_hist r ops) = snd (ring_hist r ops) ++ ring_abs (fst (ring_run r ops)) /\
+  ring_capacity (fst (ring_run r ops)) = ring_capacity r /\
+  zlen (ring_abs (fst (ring_run r ops))) <= ring_capacity r.
+Proof.
+  induction ops as [|op ops IH]; intros r Hi Hok.
+  - cbn [ring_run ring_hist fst snd]. rewrite app_nil_r. split; [reflexivity|]. split; [reflexivity|].
+    apply abs_le_cap; auto.
+  - inversion Hok as [|? ? Hop Hops]; subst.
+    pose proof (@ring_step_refines A r op Hi Hop) as Hs.
+    cbn [ring_run ring_hist]. destruct (ring_step r op) as [[r1 [ns es]]|e|]; cbn [sim] in Hs.
+    + destruct Hs as (Hi1 & Hs).
+      destruct (@qs_step_fifo (ring_view r) op (ring_view r1) (ns, es) (view_wf Hi) Hop Hs) as (Hf & Hcap).
+      rewrite !view_cap in Hcap by auto.
+      destruct (IH r1 Hi1 Hops) as (IH1 & IH2 & IH3).
+      destruct (ring_run r1 ops) as [r2 outs]. destruct (ring_hist r1 ops) as [e d].
+      cbn [fst snd] in *. unfold ring_abs in *. split; [|split]; try lia.
+      rewrite app_assoc, Hf, <- !app_assoc. f_equal. exact IH1.
+    + destruct (IH r Hi Hops) as (IH1 & IH2 & IH3).
+      destruct (ring_run r ops) as [r2 outs]. cbn [fst snd] in *. auto.
+    + cbn [fst snd]. rewrite app_nil_r. split; [reflexivity|]. split; [reflexivity|].
+      apply abs_le_cap; auto.
+Qed.
+
+(* the only panics are the four documented assert!s, under exactly these conditions *)
+Definition ring_op_panics r (op : ring_op A) : Prop :=
+  match op with
+  | ROEnqManyWith _ k => ring_contiguous_window (ring_reset_if_empty r) < k
+  | RODeqManyWith k => Z.min (ring_len r) (ring_capacity r - r_read r) < k
+  | ROEnqUnalloc n => ring_window r < n
+  | RODeqAlloc n => ring_len r < n
+  | _ => False
+  end.
+
+Lemma sim_panic : forall R (x : outcome (ring A * R)) y, sim x y -> (x = Panic <-> y = Panic).
+Proof.
+  intros R x y H. destruct x as [[r o]| |]; cbn [sim] in H.
+  - destruct H as (_ & ->). split; discriminate.
+  - subst. split; discriminate.
+  - subst. split; auto.
+Qed.
+
+Theorem ring_panic_iff : forall r op, ring_inv r -> ring_op_ok op ->
+  (ring_step r op = Panic <-> ring_op_panics r op).
+Proof.
+  intros r op Hi Hok. rewrite (@sim_panic _ _ _ (@ring_step_refines A r op Hi Hok)).
+  pose proof (view_rep Hi) as Hrep. pose proof (rep_cap Hrep) as Hc. pose proof Hrep as (_ & _ & Hq).
+  pose proof Hi as Hi'. unfold ring_inv in Hi'.
+  destruct op; cbn [qs_step ring_op_panics ring_op_ok] in *.
+  - unfold qs_enqueue_one_with. destruct (q_fr (ring_view r)); cbn [obind]; split; (discriminate || contradiction).
+  - unfold qs_enqueue_one_with. destruct (q_fr (ring_view r)); cbn [obind]; split; (discriminate || contradiction).
+  - unfold qs_dequeue_one_with. destruct (q_q (ring_view r)); cbn [obind]; split; (discriminate || contradiction).
+  - unfold qs_dequeue_one_with. destruct (q_q (ring_view r)); cbn [obind]; split; (discriminate || contradiction).
+  - (* enqueue_many_with *)
+    unfold qs_enqueue_many_with. cbn [obind].
+    destruct (rep_reset Hrep) as (fr1 & Hrep1 & Hs1 & _ & _). rewrite <- view_eta in Hs1.
+    pose proof Hrep1 as (Hi1 & _). pose proof (status_eq Hi1) as Hst.
+    rewrite (rep_view Hrep1) in Hst. rewrite <- Hs1 in Hst.
+    unfold ring_status, qs_status in Hst.
+    pose proof (f_equal (fun l => nth 3 l 0) Hst) as Hcw. cbn [nth] in Hcw.
+    rewrite Hcw.
+    destruct (Z.ltb_spec (qs_contiguous_window (qs_reset_if_empty (ring_view r))) k);
+      split; auto; try discriminate; lia.
+  - split; [discriminate|contradiction].
+  - split; [discriminate|contradiction].
+  - unfold qs_dequeue_many_with. cbn [obind]. unfold qs_len, qs_cap, ring_len.
+    rewrite Hc, Hq. cbn [ring_view q_pos].
+    destruct (Z.ltb_spec (Z.min (r_len r) (ring_capacity r - r_read r)) k);
+      split; auto; try discriminate; lia.
+  - split; [discriminate|contradiction].
+  - split; [discriminate|contradiction].
+  - split; [discriminate|contradiction].
+  - split; [discriminate|contradiction].
+  - unfold qs_enqueue_unallocated, qs_window, ring_window, ring_len.
+    replace (zlen (q_fr (ring_view r))) with (ring_capacity r - r_len r) by lia.
+    destruct (Z.ltb_spec (ring_capacity r - r_len r) n); cbn [obind];
+      split; auto; try discriminate; lia.
+  - unfold qs_get_allocated. destruct (_ <? _); cbn [obind]; split; (discriminate || contradiction).
+  - unfold qs_read_allocated. destruct (_ <? _); cbn [obind]; split; (discriminate || contradiction).
+  - unfold qs_dequeue_allocated, qs_len, ring_len. rewrite Hq.
+    destruct (Z.ltb_spec (r_len r) n); cbn [obind]; split; auto; try discriminate; lia.
+  - split; [discriminate|contradiction].
+Qed.
+
+(* the usize subtractions of the source cannot underflow under the invariant *)
+Lemma ring_sub_ok : forall r, ring_inv r ->
+  0 <= ring_window r /\ 0 <= ring_capacity r - r_read r /\
+  (forall i, 0 <= i <= ring_capacity r -> 0 <= ring_capacity r - ring_get_idx r i) /\
+  0 <= ring_contiguous_window r.
+Proof.
+  intros r Hi. pose proof Hi as Hi'. unfold ring_inv in Hi'.
+  assert (Hg : forall i, 0 <= i <= ring_capacity r -> 0 <= ring_capacity r - ring_get_idx r i).
+  { intros i Hir. rewrite get_idx_pidx by auto.
+    pose proof (@pidx_range (ring_capacity r) (r_read r) i). lia. }
+  unfold ring_contiguous_window, ring_window, ring_len.
+  specialize (Hg (r_len r)) as Hg'. repeat split; auto; try lia.
+Qed.
+
+Lemma ring_new_inv : forall (store : list A), ring_inv (ring_new store).
+Proof.
+  intros. unfold ring_inv, ring_new, ring_capacity. cbn [r_len r_read r_store].
+  pose proof (zlen_nonneg store). lia.
+Qed.
+End QueueFacts.
+
+(* ------------------------------------------------------------------------------------ *)
+(* statements exported to Props/C14.v                                                     *)
+(* ------------------------------------------------------------------------------------ *)
+Lemma ok_inj : forall T (a b : T), Ok a = Ok b -> a = b.
+Proof. intros T a b H. inversion H. reflexivity. Qed.
+
+Section C14Ring.
+Variable A : Type.
+
+Lemma c14_ring_invariant : forall (store : list A) ops,
+  Forall (@ring_op_ok A) ops ->
+  let r := fst (ring_run (ring_new store) ops) in
+  ring_inv r /\ ring_capacity r = zlen store /\ 0 <= ring_len r <= zlen store /\
+  ring_len r = zlen (ring_abs r).
+Proof.
+  intros store ops Hok r.
+  destruct (@ring_run_refines A ops (ring_new store) (ring_new_inv store) Hok) as (Hi & _).
+  destruct (@ring_run_fifo A ops (ring_new store) (ring_new_inv store) Hok) as (_ & Hc & _).
+  fold r in Hi, Hc. split; [exact Hi|]. split; [exact Hc|].
+  destruct (view_rep Hi) as (_ & _ & Hq). unfold ring_abs, ring_len.
+  rewrite Hq. unfold ring_inv in Hi. rewrite Hc in Hi.
+  change (ring_capacity (ring_new store)) with (zlen store) in Hi. split; [lia|reflexivity].
+Qed.
+
+Lemma c14_ring_random_access : forall (r r1 : ring A) off d n,
+  ring_inv r -> 0 <= off ->
+  ring_write_unallocated r off d = Ok (r1, n) ->
+  ring_inv r1 /\ ring_abs r1 = ring_abs r /\
+  n = (if ring_window r <? off then 0 else Z.min (zlen d) (ring_window r - off)) /\
+  (off <= ring_window r ->
+     q_fr (ring_view r1) = put (q_fr (ring_view r)) off (firstn (Z.to_nat n) d)) /\
+  forall r2, off = 0 -> ring_enqueue_unallocated r1 n = Ok r2 ->
+     ring_inv r2 /\ ring_abs r2 = ring_abs r ++ firstn (Z.to_nat n) d.
+Proof.
+  intros r r1 off d n Hi Ho Hw.
+  pose proof (sim_write_unallocated d Ho Hi) as Hs. rewrite Hw in Hs. cbn [sim] in Hs.
+  destruct Hs as (Hi1 & Hs). unfold qs_write_unallocated in Hs.
+  pose proof (rep_cap (view_rep Hi)) as Hc.
+  assert (Hwin : qs_window (ring_view r) = ring_window r).
+  { unfold qs_window, ring_window, ring_len. destruct (view_rep Hi) as (_ & _ & Hq). lia. }
+  rewrite Hwin in Hs. apply ok_inj in Hs.
+  pose proof (f_equal fst Hs) as Hv. pose proof (f_equal snd Hs) as Hn. cbn [fst snd] in Hv, Hn.
+  clear Hs. split; [exact Hi1|]. unfold ring_abs. rewrite <- Hv. cbn [q_q q_fr].
+  split; [reflexivity|]. split; [auto|]. split.
+  - intro Hle. destruct (Z.ltb_spec (ring_window r) off); [lia|]. rewrite Hn. reflexivity.
+  - intros r2 H0 He. subst off.
+    pose proof (zlen_nonneg d). pose proof (ring_sub_ok Hi) as (Hw0 & _).
+    destruct (Z.ltb_spec (ring_window r) 0); [lia|].
+    assert (Hn0 : 0 <= n) by lia.
+    pose proof (sim_enqueue_unallocated' Hn0 (view_rep Hi1)) as H2. rewrite <- view_eta in H2.
+    rewrite He in H2. destruct H2 as (Hi2 & H2). split; [exact Hi2|].
+    unfold qs_enqueue_unallocated in H2. destruct (_ <? _) in H2; [discriminate|].
+    apply ok_inj in H2. rewrite <- H2, <- Hv. cbn [q_q q_fr]. f_equal.
+    rewrite Hn. rewrite put_0.
+    assert (Hz : zlen (firstn (Z.to_nat n) d) = n) by (apply zlen_firstn; lia).
+    apply firstn_app_len. exact Hz.
+Qed.
+
+Definition c14_ring_example_ops : list (ring_op Z) :=
+  [ROEnqSlice [1; 2; 3]; RODeqSlice 2; ROEnqSlice [4; 5]; ROWrUnalloc 0 [9]].
+
+End C14Ring.
+
+Lemma c14_ring_example :
+  let r := fst (ring_run (ring_new [0; 0; 0; 0]) c14_ring_example_ops) in
+  r = mkRing [5; 9; 3; 4] 2 3 /\ ring_abs r = [3; 4; 5] /\ q_fr (ring_view r) = [9] /\
+  ring_inv r /\ ring_contiguous_window r = 1 /\
+  Forall (@ring_op_ok Z) c14_ring_example_ops.
+Proof.
+  vm_compute. repeat split; try discriminate; repeat constructor; discriminate.
+Qed.
